@@ -58,7 +58,12 @@ def gen_cases(seed, tier):
             else:
                 k = {"k": "list", "items": items}
         blanks = [r.random() < 0.3 for _ in range(n)]
-        cases.append({"scan": S.layout(S.k_text(k), r), "k": k, "n": n, "blanks": blanks, "mp": r.randint(0, 1)})
+        case = {"scan": S.layout(S.k_text(k), r), "k": k, "n": n, "blanks": blanks, "mp": r.randint(0, 1)}
+        if i % 5 == 4:
+            # the apostrophe as the quote character, and records that end in a lone double quote (a ditto mark)
+            case["quote"] = "'"
+            case["ditto"] = [r.random() < 0.4 for _ in range(n)]
+        cases.append(case)
     # scan parts outside K: correspondence only (includes what PLY rejects)
     toks = ["+", "-", "*", "0", "1", "2", "3", "5", "7", "10", " "]
     for i in range(extra // 3):
